@@ -346,6 +346,25 @@ pub fn tail_binding_family() -> Vec<(String, Vec<Form>)> {
     for (name, e) in bodies {
         out.push((format!("error in a non-final body form: {}", name), vec![Form::Expr(e), Form::Expr(Expr::Quote(kw("next-form")))]));
     }
+    // a case with nothing but an else clause still evaluates its key, once
+    let ticking_key = |k: i32| Expr::Tick(k, Box::new(app("car", vec![Expr::Quote(Datum::List(vec![Datum::Int(4)], None))])));
+    out.push(("case with only an else clause, compound key".into(), vec![Form::Expr(Expr::Case(Box::new(ticking_key(1)), vec![], Some(CaseBody::Exprs(vec![Expr::Tick(2, Box::new(Expr::Quote(kw("fallback"))))]))))]));
+    out.push((
+        "case with only an else => clause, compound key".into(),
+        vec![Form::Expr(Expr::Case(Box::new(ticking_key(1)), vec![], Some(CaseBody::Arrow(Box::new(lam(&["v"], Body { defs: vec![], exprs: vec![app("list", vec![var("v")])] }))))))],
+    ));
+    out.push((
+        "case with only an else clause, key with an effect".into(),
+        vec![
+            Form::Define(Def { name: "hits".into(), value: Expr::Int(0), sugar: false }),
+            Form::Expr(Expr::Case(
+                Box::new(Expr::Begin(vec![Expr::Set("hits".into(), Box::new(app("+", vec![var("hits"), Expr::Int(1)]))), var("hits")])),
+                vec![],
+                Some(CaseBody::Exprs(vec![Expr::Quote(kw("fallback"))])),
+            )),
+            Form::Expr(var("hits")),
+        ],
+    ));
     // a body whose first form is a call of a call: ((mk 1) (id k)) is a list of two-element lists, like a binding list
     let mk = Form::Define(Def { name: "mk".into(), value: lam(&["a"], Body { defs: vec![], exprs: vec![lam(&["b"], Body { defs: vec![], exprs: vec![Expr::Tick(1, Box::new(app("list", vec![var("a"), var("b")])))] })] }), sugar: true });
     let idp = Form::Define(Def { name: "id".into(), value: lam(&["v"], Body { defs: vec![], exprs: vec![var("v")] }), sugar: true });
